@@ -371,10 +371,11 @@ class CompilerPassGenerateCode(CompilerPass):
         node._ndata.add(IC10("j", [start_label]))
 
     def handle_break(self, node: nodes.Break):
-        while not isinstance(node.parent, (nodes.While, nodes.For)):
-            node = node.parent
-        end_label = node.parent._ndata.end_label
-        node._ndata.add(IC10("j", [end_label]))
+        loop_node = node
+        while not isinstance(loop_node, (nodes.While, nodes.For)):
+            loop_node = loop_node.parent
+        end_label = loop_node._ndata.end_label
+        node._ndata.add(IC10("j", [end_label], indent=-1))
 
     def handle_name(self, node: nodes.Name):
         # todo: detect if name is in locals/globals
